@@ -262,6 +262,25 @@ def judge_clip_evaluation(ctx, seed, na, npred, same_clip, matches, score, id_ov
     ctx.mon("paths_agree")
     if len(set(outcomes.values())) > 1:
         ctx.violate("paths_agree", "paths_agree:ClipEvaluation", observed=outcomes, expected="identical on every path", spec=spec)
+    if not same_clip and not (isinstance(score, float) and math.isnan(score)):
+        # raw data that leaves the clips' (defaulted) uuid out: two different clips get two fresh, different identifiers,
+        # so the evaluation is still over two clips and still invalid
+        def strip(d):
+            d = _dumpd(d, "json")
+            d.get("clip", {}).pop("uuid", None)
+            return d
+
+        def build_no_ids(path):
+            kw = kwargs_raw()
+            raw = {k: _dumpd(v, "json") for k, v in kw.items()}
+            raw["annotations"], raw["predictions"] = strip(kw["annotations"]), strip(kw["predictions"])
+            if path == "dict":
+                return data.ClipEvaluation.model_validate(raw)
+            return data.ClipEvaluation.model_validate_json(json.dumps(raw, default=_jd))
+
+        ctx.mon("defaulted_field_omitted")
+        for p in ("dict", "json"):
+            _attempt(ctx, "ClipEvaluation", p, build_no_ids, dict(spec, omitted="clip uuids"), False)
 
 
 def _dumpd(v, mode="python"):
